@@ -16,8 +16,10 @@ void harness(void)
         if (f == CAT_FSM_TYPE_ATCMD || f == CAT_FSM_TYPE_UNSOLICITED) {
                 size_t p = (f == CAT_FSM_TYPE_ATCMD) ? h_obj.position : h_obj.unsolicited_fsm.position;
                 size_t c = (f == CAT_FSM_TYPE_ATCMD) ? CAP_AT(&h_obj) : CAP_UN(&h_obj);
-                if (g_k < p && p <= c)
-                        g_oldtext = BUFF(&h_obj, fsm)[g_k];
+                g_pfx1 = nondet_size();
+                if (g_pfx1 <= p && p <= c && g_k < g_pfx1)
+                        g_oldtext1 = BUFF(&h_obj, fsm)[g_k];
+                g_pfx = g_pfx1; g_oldtext = g_oldtext1;
         }
         format_int_decimal(&h_obj, fsm);
         __CPROVER_assert(0, "CANARY end of harness reachable");
